@@ -385,7 +385,15 @@ def _restore_whitespace_lines(source: str, new_source: str) -> Tuple[str, str, s
     return new_source, found, replaced
 
 
-def _do_rewrite(source: str, rewrite: _Rewrite, *, fix_function_name: str = "") -> str:
+def _do_rewrite(
+    source: str, rewrite: _Rewrite, *, fix_function_name: str = "", scheduled: bool = False
+) -> str:
+    """Apply one rewrite to source.
+
+    A scheduled rewrite belongs to a transaction that was tested for ignore comments as a whole,
+    on the text its ranges were computed for. It is not refused on its own here, where the lines
+    around it may already hold what other rewrites of the transaction have put there.
+    """
     old, new = rewrite
     start, end = _get_charnos(rewrite, source)
     code = source[start:end]
@@ -424,7 +432,7 @@ def _do_rewrite(source: str, rewrite: _Rewrite, *, fix_function_name: str = "") 
     if isinstance(old, core.Range):
         # Prevent changes being applied if `# pyrefact: skip_file` or `pyrefact: ignore` comment
 
-        if core.has_ignore_comment(source, old):
+        if not scheduled and core.has_ignore_comment(source, old):
             return source
 
         # Prevent whitespace-only changes from being applied
@@ -482,7 +490,7 @@ def _do_rewrite(source: str, rewrite: _Rewrite, *, fix_function_name: str = "") 
         for i, code in enumerate(lines)
     )
 
-    if core.has_ignore_comment(source, core.Range(start, end)):
+    if not scheduled and core.has_ignore_comment(source, core.Range(start, end)):
         return source
 
     candidate = source[:start] + new_code + source[end:]
@@ -784,7 +792,9 @@ def _schedule_rewrites(
 def _apply_rewrites(source: str, rewrites: Sequence[Tuple[Any, Callable]]) -> str:
     original_source = new_source = source
     for transaction, (_, rewrite) in rewrites:
-        new_source = _do_rewrite(new_source, rewrite, fix_function_name=transaction.group_name)
+        new_source = _do_rewrite(
+            new_source, rewrite, fix_function_name=transaction.group_name, scheduled=True
+        )
 
     if not core.is_valid_python(new_source):
         return source
